@@ -9,6 +9,8 @@ Oracle (implementation): crash-point enumeration on the public functionals: for 
   kind x {forward, backward, double backward} the user function raises at evaluation k for every k; the
   user's objects (identity, value, Parameter registration and order) and the debug flag must be unchanged."""
 from __future__ import annotations
+import contextlib
+import io
 import warnings
 import torch
 from vlib import cnat, clist, cbool, coq_bool_cases
@@ -473,6 +475,75 @@ def debug_flag_probe(ctx):
         set_debug_mode(saved)
 
 
+def debug_mode_crash_probe(ctx):
+    """debug mode: a functional called on a method of an EditableModule first runs the method once more on CLONES of the module's
+    tensors (EditableModule.assertparams) to see which of them the method uses; when the user's method raises at THAT evaluation
+    the caller's tensors must be back in the module like at any other crash point (finding F40)"""
+    import xitorch as xt
+    from xitorch.optimize import rootfinder
+    from xitorch.integrate import quad, solve_ivp
+    from xitorch.debug.modes import enable_debug, set_debug_mode, is_debug_enabled
+
+    class Mod(xt.EditableModule):
+        def __init__(self, a, b):
+            self.a = a
+            self.inner = [b]
+            self.calls = 0
+            self.raise_at = None
+
+        def tick(self):
+            self.calls += 1
+            if self.raise_at is not None and self.calls == self.raise_at:
+                raise Boom()
+
+        def resid(self, y):
+            self.tick()
+            return y * y * self.a - self.inner[0] + y
+
+        def integrand(self, x):
+            self.tick()
+            return self.a * x * x + self.inner[0]
+
+        def rhs(self, t, y):
+            self.tick()
+            return -self.a * y + self.inner[0]
+
+        def getparamnames(self, methodname, prefix=""):
+            return [prefix + "a", prefix + "inner[0]"]
+
+    DT = torch.float64
+    runs = {"rootfinder": lambda m: rootfinder(m.resid, torch.tensor([0.5], dtype=DT)),
+            "quad": lambda m: quad(m.integrand, 0.0, 1.0, n=4),
+            "solve_ivp": lambda m: solve_ivp(m.rhs, torch.linspace(0, 1, 3, dtype=DT), torch.ones(1, dtype=DT), method="rk4")}
+    saved = is_debug_enabled()
+    try:
+        for name, run in runs.items():
+            for k in (None, 1, 2, 3, 4):
+                for flag0 in (False, True):
+                    a = torch.tensor([2.0], dtype=DT, requires_grad=True)
+                    b = torch.tensor([1.0], dtype=DT, requires_grad=True)
+                    m = Mod(a, b)
+                    m.raise_at = k
+                    set_debug_mode(flag0)
+                    raised = False
+                    try:
+                        with warnings.catch_warnings(), contextlib.redirect_stdout(io.StringIO()):
+                            warnings.simplefilter("ignore")
+                            with enable_debug():
+                                run(m)
+                    except Boom:
+                        raised = True
+                    ctx.count(("debug-mode-crash", name, k, flag0, raised), nontrivial=raised)
+                    info = {"functional": name, "user_method_raises_at_evaluation": k, "debug_flag_on_entry": flag0, "raised": raised}
+                    if m.a is not a or m.inner[0] is not b:
+                        ctx.fail("oracle", "debug-mode:%s:module-keeps-clones" % name, info,
+                                 {"a_is_callers": m.a is a, "b_is_callers": m.inner[0] is b}, "the caller's tensor objects")
+                    if is_debug_enabled() != flag0:
+                        ctx.fail("oracle", "debug-mode:%s:flag-not-restored" % name, info, is_debug_enabled(), flag0)
+    finally:
+        set_debug_mode(saved)
+
+
 def check(ctx):
     cases, meta = [], []
     program_cases(ctx, cases, meta)
@@ -485,6 +556,7 @@ def check(ctx):
     crash_oracle(ctx, max_k=ctx.n(12, 60))
     linop_crash_oracle(ctx)
     debug_flag_probe(ctx)
+    debug_mode_crash_probe(ctx)
 
 
 def search(ctx):
